@@ -22,9 +22,12 @@ package connectconformance
 //@   modifies cbCount
 //@   ensures cbCount == old(cbCount)[arg1 := old(cbCount[arg1]) + 1] //# arg1: the name the callback is invoked with
 
+// abortN[p]: how often abort was called on controller p
+//@ ghost abortN: processController -> int
 //@ func processController.abort
 //@   trusted
-//@   modifies nothing
+//@   modifies abortN
+//@   ensures abortN == old(abortN)[self := old(abortN[self]) + 1]
 //@ func processController.result
 //@   trusted
 //@   modifies nothing
@@ -45,7 +48,7 @@ package connectconformance
 
 //@ func (*clientProcessRunner).stop
 //@   requires c != nil && c.proc != nil && c.proc.processController != nil
-//@   modifies atomicBoolV
+//@   modifies atomicBoolV, abortN
 //@   ensures atomicBoolV[fieldaddr(c, terminated)]
 
 //@ func (*clientProcessRunner).closeSend
@@ -79,8 +82,11 @@ package connectconformance
 //@ func (*clientProcessRunner).consumeOutput$1
 //@   option rangedelete
 //@   requires c != nil && c.proc != nil && c.proc.stdin != nil && c.proc.processController != nil && !held[c.sendMu] && !held[c.pendingMu]
-//@   modifies held, mapof(clientProcessRunner.pendingOps), atomicPtr, atomicBoolV, clientProcessRunner.closedSend, cbCount
+//@   modifies held, mapof(clientProcessRunner.pendingOps), atomicPtr, atomicBoolV, clientProcessRunner.closedSend, cbCount, abortN
 //@   ensures @closed c.closedSend
+//@   //# progress: on an abnormal end the process is aborted BEFORE closeSend takes sendMu - a sender blocked in a write to the dead
+//@   //# client holds sendMu and is only released by the abort; the other order can wait forever
+//@   assert_at "c.closeSend()": reasonForReturn != nil && !errIs(reasonForReturn, io.EOF) ==> abortN[c.proc.processController] > atpre(abortN[c.proc.processController])
 //@   ensures @drained forall k string :: !has(c.pendingOps, k)
 //@   ensures @each forall k string :: cbCount[k] == old(cbCount[k]) + (atlock(has(c.pendingOps, k)) ? 1 : 0)
 //@   ensures @terminated reasonForReturn != nil && !errIs(reasonForReturn, io.EOF) ==> atomicBoolV[fieldaddr(c, terminated)]
@@ -92,7 +98,7 @@ package connectconformance
 //@ func (*clientProcessRunner).consumeOutput
 //@   requires c != nil && c.proc != nil && c.proc.stdin != nil && c.proc.stdout != nil && c.proc.processController != nil && !held[c.sendMu] && !held[c.pendingMu]
 //@   requires c.done != nil && !chanClosed[c.done]
-//@   modifies held, mapof(clientProcessRunner.pendingOps), atomicPtr, atomicBoolV, clientProcessRunner.closedSend, cbCount, chanClosed, rdPos, map[string]struct{}, *error, conformancev1.ClientCompatResponse.*, conformancev1.ServerCompatResponse.*
+//@   modifies held, mapof(clientProcessRunner.pendingOps), atomicPtr, atomicBoolV, clientProcessRunner.closedSend, cbCount, abortN, chanClosed, rdPos, map[string]struct{}, *error, conformancev1.ClientCompatResponse.*, conformancev1.ServerCompatResponse.*
 //@   ensures @done chanClosed[c.done]
 //@   ensures @closed c.closedSend
 //@   ensures @drained forall k string :: !has(c.pendingOps, k)
